@@ -1,0 +1,16 @@
+//go:build verif
+
+package consul
+
+// Read-only export for the correspondence check of property C14 (/verif): the real
+// ServiceMonitor.makeConfig with its error result (a failed catalog lookup).
+
+import (
+	"github.com/hashicorp/consul/api"
+)
+
+// VerifC14MakeConfigErr is ServiceMonitor.makeConfig; failed reports a non-nil error.
+func VerifC14MakeConfigErr(m *ServiceMonitor, checks []*api.HealthCheck) (cfg string, failed bool) {
+	cfg, err := m.makeConfig(checks)
+	return cfg, err != nil
+}
